@@ -70,6 +70,13 @@ CANARIES = [
     ('avx_mixed_radix_f64', 'S', r'let \(scratch, inner_scratch\) = scratch\.split_at_mut\(self\.len\(\)\);', 'let (scratch, inner_scratch) = scratch.split_at_mut(self.len() + 1);', 'perform_fft_inplace'),
     ('avx_bluesteins', 'S', r'3 => verif_store_partial3_complex\(output,', '3 => verif_store_complex(output,', 'finalize_bluesteins'),
     ('avx_raders', 'S', r'let \(scratch2, extra_scratch\) = scratch\.split_at_mut\(self\.len\(\)\);', 'let (scratch2, extra_scratch) = scratch.split_at_mut(self.len() + 2);', 'perform_fft_immut'),
+    ('neon_radix4', 'S', r'let twiddle_offset = num_vector_columns \* \(ROW_COUNT - 1\);', 'let twiddle_offset = num_vector_columns * ROW_COUNT;', 'perform_fft_immut'),
+    ('neon_radix4', 'S', r'idx \+= (\d) \* 2;', r'idx += \1 * 2 + 1;', 'butterfly_4'),
+    ('neon_radix4', 'S', r'for k in 1\.\.ROW_COUNT', 'for k in 0..ROW_COUNT', 'new'),
+    ('wasm_radix4', 'S', r'let twiddle_offset = num_vector_columns \* \(ROW_COUNT - 1\);', 'let twiddle_offset = num_vector_columns * ROW_COUNT;', 'perform_fft_immut'),
+    ('wasm_radix4', 'S', r'idx \+= (\d) \* 2;', r'idx += \1 * 2 + 1;', 'butterfly_4'),
+    ('wasm_radix4', 'S', r'for k in 1\.\.ROW_COUNT', 'for k in 0..ROW_COUNT', 'new'),
+    ('sse_radix4', 'S', r'idx \+= (\d) \* 2;', r'idx += \1 * 2 + 1;', 'butterfly_4'),
     ('sse_radix4', 'S', r'let twiddle_offset = num_vector_columns \* \(ROW_COUNT - 1\);', 'let twiddle_offset = num_vector_columns * ROW_COUNT;', 'perform_fft_immut'),
     ('partial_factors', 'S', r'power3: self\.power3 - divisor\.power3,', 'power3: self.power3 - divisor.power2,', 'divide_by'),
     ('prime_roots', 'S', r'divisor \+= 2;', 'divisor += 4;', 'distinct_prime_factors'),
